@@ -235,3 +235,13 @@ for Crossbeam<'static, ItemType, BUFFER_SIZE, MAX_STREAMS> {
         self.streams_manager.name()
     }
 }
+/// verification hooks: gives the external harness access to the components (to name their shared cells)
+#[cfg(feature = "verif")]
+impl<'a, ItemType,
+         const BUFFER_SIZE: usize,
+         const MAX_STREAMS: usize>
+Crossbeam<'a, ItemType, BUFFER_SIZE, MAX_STREAMS> {
+    pub fn verif_parts(&self) -> &StreamsManagerBase<MAX_STREAMS> {
+        &self.streams_manager
+    }
+}
